@@ -19,7 +19,7 @@ From Coq Require Import List Bool Arith.
 From Verif Require Import Xfer.Chunks.
 Import ListNotations.
 
-Inductive beh := Drain | DrainErr | Abort (k : nat) | Ignore.
+Inductive beh := Drain | DrainErr | GiveUp (k : nat) | Ignore.
 Inductive err := ENone | EEngine | EOther.
 Record msg := mkMsg { m_target : option nat; m_err : err; m_path_ok : bool }.
 Inductive recv := RNone | RPrefix (n : nat) (meta_ok : bool) (calls : nat) | RGarbled (n calls : nat).
@@ -44,11 +44,11 @@ Fixpoint dedupe (ids : list target) : list target :=
 Definition engine_reads {A} (b : beh) (stream : list (list A)) : list A :=
   match b with
   | Drain | DrainErr => concat stream
-  | Abort k => firstn k (concat stream)
+  | GiveUp k => firstn k (concat stream)
   | Ignore => []
   end.
 Definition engine_err (b : beh) : err :=
-  match b with Drain | Ignore => ENone | DrainErr | Abort _ => EEngine end.
+  match b with Drain | Ignore => ENone | DrainErr | GiveUp _ => EEngine end.
 
 Definition beh_of (behs : list beh) (o : nat) : beh := nth o behs Drain.
 
@@ -81,7 +81,7 @@ Definition stops_after (b : option beh) (total : nat) : option nat :=
   match b with
   | None => Some 0                                        (* no engine call at all *)
   | Some (Drain | DrainErr) => None
-  | Some (Abort k) => Some (Nat.min k total)
+  | Some (GiveUp k) => Some (Nat.min k total)
   | Some Ignore => Some 0
   end.
 
@@ -168,7 +168,7 @@ Definition recv_ok (c : case) (o : nat) (r : recv) : bool :=
         meta && Nat.eqb calls 1
         && match beh_of (c_behs c) o with
            | Drain | DrainErr => Nat.eqb n (file_size c)          (* byte-identical, complete *)
-           | Abort k => n <=? file_size c                          (* whatever it took is a prefix *)
+           | GiveUp k => n <=? file_size c                          (* whatever it took is a prefix *)
            | Ignore => true
            end
     | _ => false
